@@ -1,6 +1,542 @@
-//! C17 — not built yet.
-use crate::ev::Tier;
-pub fn main(_tier: Tier, _replay: Option<serde_json::Value>) -> i32 {
-    eprintln!("C17: check not built yet");
-    2
+//! C17 — checked decoders are total, bounded and admit only well-formed data
+//! (fault enumeration, engine E3).
+//!
+//! The parent enumerates the cases, runs them in child processes of the same
+//! binary (`VP_C17_SHARD` selects the shard) under a wall-clock watchdog, and
+//! attributes a crashed / killed child to a single case by re-running it alone.
+
+use std::collections::BTreeMap;
+use std::io::{BufRead, BufReader, Read, Write};
+use std::process::{Command, Stdio};
+use std::sync::atomic::{AtomicBool, Ordering};
+use std::sync::mpsc;
+use std::sync::Mutex;
+use std::time::{Duration, Instant};
+
+use serde_json::{json, Value};
+
+use crate::ev::{Run, Tier};
+use crate::fe::fnv;
+
+#[path = "c17_alloc.rs"]
+pub mod alloc;
+#[path = "c17_cases.rs"]
+pub mod cases;
+#[path = "c17_exec.rs"]
+pub mod exec;
+#[path = "c17_fmt.rs"]
+pub mod fmt;
+#[path = "c17_mp.rs"]
+pub mod mp;
+#[path = "c17_world.rs"]
+pub mod world;
+
+use cases::{apply, Case, Plan};
+use exec::{Limits, Res};
+use fmt::Class;
+use world::World;
+
+const SHARD_ENV: &str = "VP_C17_SHARD";
+/// a case (decode + acceptance side) still running after this is killed and re-run alone
+const CASE_KILL: Duration = Duration::from_secs(30);
+/// a child that has not reported anything yet (building its world) gets this long
+const STARTUP_KILL: Duration = Duration::from_secs(180);
+
+fn case_kill() -> Duration {
+    std::env::var("VP_C17_CASE_KILL_S").ok().and_then(|s| s.parse().ok()).map(Duration::from_secs).unwrap_or(CASE_KILL)
+}
+
+fn hex(b: &[u8]) -> String {
+    let mut s = String::with_capacity(b.len() * 2);
+    for x in b {
+        s.push_str(&format!("{:02x}", x));
+    }
+    s
+}
+fn unhex(s: &str) -> Vec<u8> {
+    (0..s.len() / 2).map(|i| u8::from_str_radix(&s[2 * i..2 * i + 2], 16).unwrap_or(0)).collect()
+}
+
+// ------------------------------------------------------------------ child
+
+fn child(tier: Tier, spec: &str) -> i32 {
+    exec::install_recording_hook();
+    let w = World::build(tier);
+    let lim = Limits::measure(&w);
+    let pool = rayon::ThreadPoolBuilder::new().num_threads(1).build().expect("pool");
+    let out = std::io::stdout();
+    let parts: Vec<&str> = spec.split(':').collect();
+    if parts[0] == "replay" {
+        let path = spec.splitn(2, ':').nth(1).unwrap_or("");
+        let v: Value = serde_json::from_str(&std::fs::read_to_string(path).expect("replay file")).expect("replay json");
+        let case = if v.get("case").is_some() { &v["case"] } else { &v };
+        let class = Class::all().into_iter().find(|c| c.name() == case["class"].as_str().unwrap_or("")).expect("class");
+        let circ = w.circs.iter().position(|c| Some(c.name) == case["circuit"].as_str()).unwrap_or(0);
+        let bytes = unhex(case["input_hex"].as_str().expect("input_hex"));
+        let section = case["section"].as_str().unwrap_or("whole").to_string();
+        let fam = case["family"].as_str().unwrap_or("replay").to_string();
+        writeln!(out.lock(), "B 0").ok();
+        let r = pool.install(|| exec::run_bytes(&w, &lim, class, circ, &bytes, &section, &fam));
+        writeln!(out.lock(), "E 0 {}", r.to_json()).ok();
+        return 0;
+    }
+    let plan = cases::enumerate(&w);
+    writeln!(out.lock(), "W {} {} {}", w.fingerprint, plan.cases.len(), lim.to_json()).ok();
+    let sel: Vec<usize> = match parts[0] {
+        "mod" => {
+            let (i, n, from): (usize, usize, usize) = (parts[1].parse().unwrap(), parts[2].parse().unwrap(), parts[3].parse().unwrap());
+            (from..plan.cases.len()).filter(|k| k % n == i).collect()
+        }
+        "one" => vec![parts[1].parse().unwrap()],
+        _ => {
+            eprintln!("bad shard spec {}", spec);
+            return 2;
+        }
+    };
+    let test_hang: Option<usize> = std::env::var("VP_C17_TEST_HANG").ok().and_then(|s| s.parse().ok());
+    pool.install(|| {
+        for k in sel {
+            writeln!(out.lock(), "B {}", k).ok();
+            if test_hang == Some(k) {
+                // self-test hook for the watchdog path
+                loop {
+                    std::thread::sleep(Duration::from_secs(1));
+                }
+            }
+            let r = exec::run_case(&w, &lim, &plan.cases[k]);
+            writeln!(out.lock(), "E {} {}", k, r.to_json()).ok();
+        }
+    });
+    0
+}
+
+// ------------------------------------------------------------------ parent
+
+struct ChildRun {
+    /// results by case index
+    done: Vec<(usize, Res)>,
+    /// case begun but not finished when the child ended
+    pending: Option<usize>,
+    header: Option<(u64, usize, Value)>,
+    /// "exit", "killed:hang", "killed:deadline", "crash:<status>"
+    end: String,
+    stderr_tail: String,
+}
+
+fn run_child(tier: Tier, spec: &str, deadline: Instant, stop: &AtomicBool, mut sink: impl FnMut(usize, Res)) -> ChildRun {
+    let exe = std::env::current_exe().expect("current exe");
+    let mut ch = Command::new(exe)
+        .args(["C17", tier.name()])
+        .env(SHARD_ENV, spec)
+        .env("VERIF_WORKERS", "1")
+        .stdin(Stdio::null())
+        .stdout(Stdio::piped())
+        .stderr(Stdio::piped())
+        .spawn()
+        .expect("spawn child");
+    let so = ch.stdout.take().unwrap();
+    let se = ch.stderr.take().unwrap();
+    let (tx, rx) = mpsc::channel::<String>();
+    let rd = std::thread::spawn(move || {
+        for line in BufReader::new(so).lines() {
+            match line {
+                Ok(l) => {
+                    if tx.send(l).is_err() {
+                        break;
+                    }
+                }
+                Err(_) => break,
+            }
+        }
+    });
+    let errd = std::thread::spawn(move || {
+        let mut s = Vec::new();
+        let _ = BufReader::new(se).read_to_end(&mut s);
+        let s = String::from_utf8_lossy(&s).to_string();
+        let n = s.len();
+        s[n.saturating_sub(1500)..].to_string()
+    });
+    let mut out = ChildRun { done: vec![], pending: None, header: None, end: String::new(), stderr_tail: String::new() };
+    let mut begun = Instant::now();
+    let mut killed: Option<&'static str> = None;
+    loop {
+        match rx.recv_timeout(Duration::from_millis(100)) {
+            Ok(l) => {
+                if let Some(rest) = l.strip_prefix("B ") {
+                    out.pending = rest.trim().parse().ok();
+                    begun = Instant::now();
+                } else if let Some(rest) = l.strip_prefix("E ") {
+                    let mut it = rest.splitn(2, ' ');
+                    let k: usize = it.next().and_then(|s| s.parse().ok()).unwrap_or(usize::MAX);
+                    let r = it.next().and_then(|s| serde_json::from_str::<Value>(s).ok()).and_then(|v| Res::from_json(&v));
+                    if let Some(r) = r {
+                        if out.pending == Some(k) {
+                            out.pending = None;
+                        }
+                        sink(k, r.clone());
+                        out.done.push((k, r));
+                    }
+                } else if let Some(rest) = l.strip_prefix("W ") {
+                    let mut it = rest.splitn(3, ' ');
+                    let fp = it.next().and_then(|s| s.parse().ok()).unwrap_or(0);
+                    let n = it.next().and_then(|s| s.parse().ok()).unwrap_or(0);
+                    let lim = it.next().and_then(|s| serde_json::from_str(s).ok()).unwrap_or(Value::Null);
+                    out.header = Some((fp, n, lim));
+                    begun = Instant::now();
+                }
+            }
+            Err(mpsc::RecvTimeoutError::Timeout) => {
+                if killed.is_none() {
+                    if Instant::now() > deadline || stop.load(Ordering::Relaxed) {
+                        let _ = ch.kill();
+                        killed = Some("killed:deadline");
+                    } else if begun.elapsed() > if out.header.is_none() && out.done.is_empty() && out.pending.is_none() { STARTUP_KILL } else { case_kill() } {
+                        let _ = ch.kill();
+                        killed = Some("killed:hang");
+                    }
+                }
+            }
+            Err(mpsc::RecvTimeoutError::Disconnected) => break,
+        }
+    }
+    let st = ch.wait();
+    let _ = rd.join();
+    out.stderr_tail = errd.join().unwrap_or_default();
+    out.end = match (killed, st) {
+        (Some(k), _) => k.to_string(),
+        (None, Ok(s)) if s.success() => "exit".into(),
+        (None, Ok(s)) => format!("crash:{}", s),
+        (None, Err(e)) => format!("crash:{}", e),
+    };
+    out
+}
+
+struct Shared {
+    results: Mutex<Vec<Option<Res>>>,
+    notes: Mutex<Vec<String>>,
+    header: Mutex<Option<(u64, usize, Value)>>,
+    capped: AtomicBool,
+}
+
+fn manage_shard(tier: Tier, i: usize, n: usize, total: usize, deadline: Instant, sh: &Shared) {
+    let mut from = 0usize;
+    let mut restarts = 0;
+    let mut confirmed = 0;
+    let stop = &sh.capped;
+    loop {
+        if (from..total).all(|k| k % n != i) {
+            return;
+        }
+        let cr = run_child(tier, &format!("mod:{}:{}:{}", i, n, from), deadline, stop, |k, r| {
+            sh.results.lock().unwrap()[k] = Some(r);
+        });
+        if let Some(h) = &cr.header {
+            let mut g = sh.header.lock().unwrap();
+            match &*g {
+                None => *g = Some(h.clone()),
+                Some(prev) if prev.0 != h.0 || prev.1 != h.1 => sh.notes.lock().unwrap().push(format!("children disagree on the world: {:?} vs {:?}", (prev.0, prev.1), (h.0, h.1))),
+                _ => {}
+            }
+        }
+        if std::env::var("VP_C17_VERBOSE").is_ok() {
+            eprintln!("[c17] shard {} child from {} ended {} after {} cases", i, from, cr.end, cr.done.len());
+        }
+        if cr.end == "exit" && cr.pending.is_none() {
+            return;
+        }
+        if cr.end == "killed:deadline" {
+            sh.capped.store(true, Ordering::Relaxed);
+            return;
+        }
+        let Some(k) = cr.pending else {
+            sh.notes.lock().unwrap().push(format!("shard {} child ended ({}) outside a case; stderr: {}", i, cr.end, cr.stderr_tail));
+            restarts += 1;
+            if restarts > 3 {
+                return;
+            }
+            // resume after the last finished case
+            from = cr.done.iter().map(|d| d.0 + 1).max().unwrap_or(from);
+            continue;
+        };
+        // a child runs its cases one at a time, so the pending case is the culprit; the first
+        // crashes of a shard are additionally re-run alone to confirm reproducibility
+        confirmed += 1;
+        if confirmed > 2 {
+            let mut r = Res::default();
+            r.outcome = if cr.end == "killed:hang" { "hang".into() } else { "abort".into() };
+            r.err = format!("{} (not re-run alone); stderr: {}", cr.end, cr.stderr_tail.replace('\n', " | "));
+            r.nontrivial = true;
+            sh.results.lock().unwrap()[k] = Some(r);
+            from = k + 1;
+            continue;
+        }
+        let mut got = None;
+        let alone = run_child(tier, &format!("one:{}", k), deadline, stop, |_, r| got = Some(r));
+        let res = match got {
+            Some(r) if alone.end == "exit" => {
+                sh.notes.lock().unwrap().push(format!("case {} ended its shard ({}) but completed when run alone; stderr: {}", k, cr.end, cr.stderr_tail));
+                r
+            }
+            _ => {
+                let hang = alone.end == "killed:hang";
+                let mut r = Res::default();
+                r.outcome = if hang { "hang".into() } else { "abort".into() };
+                r.err = format!("{} / alone: {}; stderr: {}", cr.end, alone.end, alone.stderr_tail.replace('\n', " | "));
+                r.nontrivial = true;
+                r
+            }
+        };
+        sh.results.lock().unwrap()[k] = Some(res);
+        from = k + 1;
+    }
+}
+
+fn case_json(w: &World, c: &Case, r: &Res) -> Value {
+    let o = &w.objs[c.obj];
+    let bytes = match &c.m {
+        cases::Mut::Bomb { zeros, .. } if *zeros > (1 << 22) => vec![],
+        m => apply(&o.bytes, m),
+    };
+    json!({
+        "class": o.class.name(), "object": o.name, "circuit": w.circs[o.circ].name,
+        "family": c.fam, "operator": c.op, "position": c.pos, "section": c.section,
+        "mutation": format!("{:.200}", format!("{:?}", match &c.m { cases::Mut::Whole(_) => &cases::Mut::None, m => m })),
+        "outcome": r.outcome, "error": r.err, "peak_bytes": r.peak, "decode_us": r.us, "use": r.use_,
+        "input_len": bytes.len(), "input_hex": hex(&bytes),
+    })
+}
+
+fn final_sig(w: &World, c: &Case, r: &Res) -> String {
+    // abort / hang found by the parent: signature from the own diagnosis of the input
+    let o = &w.objs[c.obj];
+    let bytes = match &c.m {
+        cases::Mut::Bomb { .. } => vec![],
+        m => apply(&o.bytes, m),
+    };
+    match exec::diagnose(w, o.class, &bytes) {
+        Some((sec, kind)) if kind != "structure" && kind != "inflate" && !bytes.is_empty() => format!("{}/{}/{}/{}", o.class.name(), sec, kind, r.outcome),
+        _ => format!("{}/{}/{}/{}", o.class.name(), c.section, c.fam, r.outcome),
+    }
+}
+
+fn replay(tier: Tier, path_json: Value) -> i32 {
+    let mut run = Run::new("C17", tier, "fault_enumeration");
+    run.set_replay_mode();
+    let tmp = std::env::temp_dir().join(format!("c17-replay-{}.json", std::process::id()));
+    std::fs::write(&tmp, serde_json::to_string(&path_json).unwrap()).expect("write replay temp");
+    let stop = AtomicBool::new(false);
+    let mut obs = vec![];
+    for _ in 0..2 {
+        let mut got = None;
+        let cr = run_child(tier, &format!("replay:{}", tmp.display()), Instant::now() + Duration::from_secs(120), &stop, |_, r| got = Some(r));
+        let r = match got {
+            Some(r) if cr.end == "exit" => r,
+            _ => {
+                let mut r = Res::default();
+                r.outcome = if cr.end == "killed:hang" { "hang".into() } else { "abort".into() };
+                r.err = format!("{}; stderr: {}", cr.end, cr.stderr_tail.replace('\n', " | "));
+                r.viol.push((path_json["signature"].as_str().unwrap_or("replay/abort").to_string(), r.err.clone()));
+                r
+            }
+        };
+        obs.push(r);
+    }
+    let _ = std::fs::remove_file(&tmp);
+    println!("replay: outcome={} error={} use={} violations={:?}", obs[0].outcome, obs[0].err, obs[0].use_, obs[0].viol);
+    if obs[0].stable() != obs[1].stable() {
+        run.machinery(format!("replay diverged: {} vs {}", obs[0].stable(), obs[1].stable()));
+    }
+    for (sig, what) in &obs[0].viol {
+        run.violation(sig, what, path_json.get("case").cloned().unwrap_or(Value::Null));
+    }
+    run.finish()
+}
+
+pub fn main(tier: Tier, replay_file: Option<Value>) -> i32 {
+    if let Ok(spec) = std::env::var(SHARD_ENV) {
+        return child(tier, &spec);
+    }
+    if let Some(v) = replay_file {
+        return replay(tier, v);
+    }
+    let mut run = Run::new("C17", tier, "fault_enumeration");
+    run.rule = "cases = fault operators (bit flips, length/count-field edits, consistent resizes, truncation/extension, splices and swaps, hand-built invalid scalars / G1 / G2 / raw points, re-packed MessagePack payloads, deflate bombs; depth 2 on integer fields in thorough) over valid encodings produced by the real code; every case runs the real checked decoder in a child process under catch_unwind, a counting allocator and a watchdog; every accepted value is re-encoded, re-parsed by an own strict parser and used (prove / verify / compile). non-trivial = distinct (object class, operator, position class) whose input got past the decoder's first length check (compressed circuits: inflated and structurally parsed)".into();
+    if let Err(e) = fmt::self_test() {
+        run.machinery(format!("self test of the strict parser / invalid elements: {}", e));
+        return run.finish();
+    }
+    let verbose = std::env::var("VP_C17_VERBOSE").is_ok();
+    let t0 = Instant::now();
+    let w = World::build(tier);
+    let plan: Plan = cases::enumerate(&w);
+    let total = plan.cases.len();
+    if verbose {
+        eprintln!("[c17] world + {} cases enumerated at {:?}", total, t0.elapsed());
+    }
+    // vacuity: the strict parser accepts every unmutated valid encoding; the allocator sees valid decodes
+    for o in &w.objs {
+        if let Some(d) = exec::diagnose(&w, o.class, &o.bytes) {
+            run.machinery(format!("strict parser rejects the valid encoding {}: {:?}", o.name, d));
+        }
+    }
+    let lim = Limits::measure(&w);
+    // Proof::from_bytes works on the stack: no heap allocation is expected there
+    run.gate(
+        "counting allocator observed a non-zero peak for the valid decodes of every allocating class",
+        Class::all().iter().all(|c| *c == Class::Proof || lim.peak[exec::ci(*c)] > 0),
+    );
+    run.states = w.objs.len() as u64;
+
+    let n = crate::par::workers();
+    let budget = match tier {
+        Tier::Quick => 100,
+        Tier::Thorough => 24 * 60,
+    };
+    let budget = std::env::var("VP_C17_BUDGET_S").ok().and_then(|s| s.parse().ok()).unwrap_or(budget);
+    let deadline = Instant::now() + Duration::from_secs(budget);
+    let sh = Shared { results: Mutex::new(vec![None; total]), notes: Mutex::new(vec![]), header: Mutex::new(None), capped: AtomicBool::new(false) };
+    std::thread::scope(|s| {
+        for i in 0..n {
+            let sh = &sh;
+            s.spawn(move || manage_shard(tier, i, n, total, deadline, sh));
+        }
+    });
+    if verbose {
+        eprintln!("[c17] children done at {:?}", t0.elapsed());
+    }
+    for note in sh.notes.lock().unwrap().iter() {
+        run.machinery(note.clone());
+    }
+    match &*sh.header.lock().unwrap() {
+        Some((fp, cnt, _)) => {
+            if *fp != w.fingerprint || *cnt != total {
+                run.machinery(format!("parent and children enumerate different worlds: fingerprint {} vs {}, cases {} vs {}", w.fingerprint, fp, total, cnt));
+            }
+        }
+        None => run.machinery("no child reported its world".into()),
+    }
+    if sh.capped.load(Ordering::Relaxed) {
+        run.capped = Some(format!("wall budget of {} s reached", budget));
+    }
+
+    // ---- aggregate
+    let results = sh.results.into_inner().unwrap();
+    let mut accepted_mut: BTreeMap<&'static str, u64> = BTreeMap::new();
+    let mut rejected_fam: BTreeMap<(String, &'static str), u64> = BTreeMap::new();
+    let mut fams: BTreeMap<(String, &'static str), u64> = BTreeMap::new();
+    let mut errors: BTreeMap<String, u64> = BTreeMap::new();
+    let mut uses: BTreeMap<String, u64> = BTreeMap::new();
+    let mut per_fam: BTreeMap<String, u64> = BTreeMap::new();
+    let mut missing = 0u64;
+    let mut max_peak = [0usize; 5];
+    let mut max_us = [0u64; 5];
+    let mut sample_keys = std::collections::HashSet::new();
+    for (k, c) in plan.cases.iter().enumerate() {
+        let o = &w.objs[c.obj];
+        let cn = o.class.name();
+        let Some(r) = &results[k] else {
+            missing += 1;
+            continue;
+        };
+        run.evaluations += 1;
+        run.transitions += 1;
+        *per_fam.entry(format!("{}:{}", cn, c.fam)).or_insert(0) += 1;
+        let over = r.viol.iter().any(|v| v.0.ends_with("/overalloc"));
+        let slow = r.viol.iter().any(|v| v.0.ends_with("/hang"));
+        let label = if r.outcome == "abort" || r.outcome == "hang" || r.outcome == "panic" {
+            r.outcome.as_str()
+        } else if slow {
+            "hang"
+        } else if over {
+            "overalloc"
+        } else {
+            r.outcome.as_str()
+        };
+        run.outcome(&format!("{}:{}", cn, label));
+        if r.outcome == "err" {
+            *errors.entry(format!("{}:{}", cn, r.err)).or_insert(0) += 1;
+        }
+        if r.accepted {
+            run.traces_validated += 1;
+            *uses.entry(format!("{}:{}", cn, r.use_)).or_insert(0) += 1;
+        }
+        max_peak[exec::ci(o.class)] = max_peak[exec::ci(o.class)].max(r.peak);
+        max_us[exec::ci(o.class)] = max_us[exec::ci(o.class)].max(r.us);
+        if r.nontrivial {
+            run.nontrivial(fnv(format!("{}|{}|{}|{}", cn, c.fam, c.op, c.pos).as_bytes()));
+        }
+        if c.fam == "baseline" {
+            let good = r.outcome == "ok" && r.strict_ok && r.viol.is_empty() && (r.use_.ends_with("verified") || r.use_.starts_with("verify-ok"));
+            if !good {
+                run.machinery(format!("valid encoding {} did not pass cleanly: {:?}", o.name, r));
+            }
+        } else {
+            *fams.entry((cn.to_string(), c.fam)).or_insert(0) += 1;
+            if r.outcome == "ok" {
+                *accepted_mut.entry(cn).or_insert(0) += 1;
+            }
+            if r.outcome == "err" {
+                *rejected_fam.entry((cn.to_string(), c.fam)).or_insert(0) += 1;
+            }
+        }
+        if r.outcome == "abort" || r.outcome == "hang" {
+            let sig = final_sig(&w, c, r);
+            run.violation(&sig, &format!("child process {} while decoding case {} ({} {} at {}): {}", r.outcome, k, c.fam, c.op, c.pos, r.err), case_json(&w, c, r));
+        }
+        for (sig, what) in &r.viol {
+            run.violation(sig, &format!("{} [case {}: {} {} {} at {}]", what, k, o.name, c.fam, c.op, c.pos), case_json(&w, c, r));
+        }
+        let sk = format!("{}:{}:{}", cn, c.fam, r.outcome);
+        if run.samples.len() < 12 && c.fam != "baseline" && sample_keys.insert(sk) && (k % 7 == 3 || r.outcome == "ok") {
+            run.sample(json!({"object": o.name, "family": c.fam, "operator": c.op, "position": c.pos, "outcome": r.outcome, "error": r.err, "use": r.use_, "peak_bytes": r.peak, "decode_us": r.us}));
+        }
+    }
+    if let Ok(path) = std::env::var("VP_C17_DUMP") {
+        let mut f = std::io::BufWriter::new(std::fs::File::create(path).expect("dump file"));
+        for (k, c) in plan.cases.iter().enumerate() {
+            if let Some(r) = &results[k] {
+                let _ = writeln!(f, "{}", json!({"k": k, "obj": w.objs[c.obj].name, "fam": c.fam, "op": c.op, "pos": c.pos, "r": r.to_json()}));
+            }
+        }
+    }
+    if missing > 0 && run.capped.is_none() {
+        run.machinery(format!("{} cases have no result", missing));
+    }
+    // ---- vacuity gates
+    if run.capped.is_none() {
+        for class in Class::all() {
+            run.gate(&format!("{}: >=1 mutated input accepted", class.name()), accepted_mut.get(class.name()).copied().unwrap_or(0) > 0);
+        }
+        for ((cn, fam), _) in fams.iter() {
+            run.gate(&format!("{}: >=1 input of operator family {} rejected", cn, fam), rejected_fam.get(&(cn.clone(), *fam)).copied().unwrap_or(0) > 0);
+        }
+    }
+    if verbose {
+        eprintln!("[c17] aggregated at {:?}", t0.elapsed());
+    }
+    // ---- evidence
+    run.exhaustive = false;
+    run.bound("cases", json!(total));
+    run.bound("fault_depth", json!(tier.pick(1, 2)));
+    run.bound("objects", json!(w.objs.iter().map(|o| json!({"name": o.name, "bytes": o.bytes.len(), "fields": o.fields.len()})).collect::<Vec<_>>()));
+    run.bound("public_parameters_points", json!(71));
+    run.bound("compressed_max_constraints", json!(w.max_constraints));
+    run.bound("alloc_bound_bytes", json!(Class::all().iter().map(|c| (c.name().to_string(), lim.alloc_bound(*c))).collect::<BTreeMap<_, _>>()));
+    run.bound("time_bound_us", json!(Class::all().iter().map(|c| (c.name().to_string(), lim.time_bound_us(*c))).collect::<BTreeMap<_, _>>()));
+    run.extra.insert("enumeration_coverage".into(), json!(plan.coverage));
+    run.extra.insert("cases_per_class_and_family".into(), json!(per_fam));
+    run.extra.insert("error_kinds".into(), json!(errors));
+    run.extra.insert("use_outcomes".into(), json!(uses));
+    run.extra.insert("valid_decode_peak_bytes".into(), json!(lim.peak));
+    run.extra.insert("valid_decode_slowest_us".into(), json!(lim.slow_us));
+    run.extra.insert("max_observed_peak_bytes".into(), json!(max_peak));
+    run.extra.insert("max_observed_decode_us".into(), json!(max_us));
+    run.extra.insert("child_processes".into(), json!(n));
+    run.assumptions = vec![
+        "the own strict parser (c17_fmt.rs / c17_mp.rs) states what a well-formed encoding is; it trusts dusk-bls12_381's is_on_curve / is_torsion_free / from_compressed_unchecked and own integer comparisons against hard-coded moduli (self-tested against the library at start-up)".into(),
+        "exhaustive only where enumeration_coverage says so; bulk data of large prover encodings is strided (every offset residue mod 32 and mod 97, every bit position)".into(),
+        "allocation bound: 2 x peak of the largest valid decode of the class + 1 MiB (compressed circuits: largest valid description at the capacity of the 71-point parameters); time bound: 10 x slowest valid decode + 1 s; a request beyond 1 GiB is refused so that the child aborts instead of exhausting the machine".into(),
+        "the rkyv archives are out of scope (feature off); CommitKey / OpeningKey are not exported, they are reached through Prover::try_from_bytes, Verifier::try_from_bytes and PublicParameters::from_slice".into(),
+    ];
+    run.finish()
 }
